@@ -25,7 +25,7 @@ LEVEL = {"C01": "model_checking", "C02": "model_checking", "C03": "model_checkin
 SP = SPEC / "pico"
 
 ALL_NODES = ["leaf:A", "leaf:B", "single", "top", "tsum", "outer", "byKey:0", "byKey:1", "byRef:x",
-             "ofMemo", "pair", "twin:a", "twin:b"]
+             "ofMemo", "pair", "twin:a", "twin:b", "twin:c", "twin:d"]
 
 # The switches describe the code in /repo as repaired by the fix: commits (known_findings.json).
 FIXES = {"FixAbsent": "TRUE", "FixEqWrite": "TRUE", "FixTopLevel": "TRUE", "SharedKeys": "FALSE"}
@@ -84,8 +84,8 @@ CONFIGS = {
     # MemoRef parameter
     "memo":   (["leaf:B", "ofMemo"], [0, 2], 5, 1, 1),
     # C04
-    "twin":   (["twin:a", "twin:b", "single"], [1], 4, 1, 1),
-    "twin5":  (["twin:a", "twin:b", "single"], [1], 5, 1, 1),
+    "twin":   (["twin:a", "twin:b", "twin:c", "twin:d", "single"], [1], 4, 1, 1, ("S",)),
+    "twin5":  (["twin:a", "twin:b", "twin:c", "twin:d", "single"], [1], 5, 1, 1, ("S",)),
     # removal + unrelated write + collection (seeded change C01-gc-prunes-removal-epochs needs 6 operations)
     "rmgc":   (["single", "byKey:0"], [1], 6, 1, 0),
     # chain byRef:x -> leaf:A -> A with an unrelated source S: verification in a later epoch, collection, another
